@@ -46,6 +46,16 @@ MODELS = {
             "A": p["k1"] * s["C"] / (1 + s["B"] / p["k2"]),
             "B": p["k1"] * (s["A"] / p["k2"]) * (s["A"] / p["k2"]) / (1 + (s["A"] / p["k2"]) * (s["A"] / p["k2"])) - p["k3"] * s["B"] * (1 + t),
             "C": -(p["k1"] * s["C"] / (1 + s["B"] / p["k2"]))}),
+    # one parameter dictionary object shared by several reactions (a common way to write first-order decay of every species)
+    "shared_dict": dict(
+        species=["A", "B", "C"],
+        reactions=lambda P: (lambda deg: [([], ["A"], "massaction", {"k": "k1"}), (["A"], ["B"], "massaction", deg), (["B"], ["C"], "massaction", deg),
+                                          (["C", "C"], [], "massaction", deg)])({"k": "k2"}),
+        params=["k1", "k2"],
+        rhs=lambda s, p, t: {
+            "A": p["k1"] - p["k2"] * s["A"],
+            "B": p["k2"] * s["A"] - p["k2"] * s["B"],
+            "C": p["k2"] * s["B"] - 2 * p["k2"] * s["C"] * s["C"]}),
     # general rates over species and parameters whose names are also sympy constants / functions (E, I, S, N, O, Q)
     "general_names": dict(
         species=["S", "E", "I"],
